@@ -6,7 +6,8 @@ import Restli.Gen.Tables
 A `fnv1a.Hash` is a pointer to a `uint32`; every `Add*` method mutates it in place. The model is
 the state-passing version: every `add* P h x` returns the new value of `*h`.
 
-* floats are IEEE bit patterns (`math.Float32bits/Float64bits`), never Lean `Float`;
+* floats are IEEE bit patterns (`math.Float32bits/Float64bits`), never Lean `Float`; `AddFloat32/64`
+  first replace `−0` by `+0` (`if v == 0 { v = 0 }`), so that `==`-equal floats hash alike;
 * `int32/int64` are converted exactly like Go's `uint32(v)` / `uint64(v)` (two's complement);
 * strings are byte strings; `AddString` is `AddBytes([]byte(v))`;
 * `AddMap` is modelled exactly as written: one hash per entry **seeded with 0** (`make([]hash, n)`,
@@ -66,10 +67,16 @@ def addUint64 (P : Params) (h : Hash) (v : UInt64) : Hash :=
 def addInt32 (P : Params) (h : Hash) (v : Int) : Hash := addUint32 P h (UInt32.ofInt v)
 /-- `AddInt64(v)` = `addUint64(uint64(v))` -/
 def addInt64 (P : Params) (h : Hash) (v : Int) : Hash := addUint64 P h (UInt64.ofInt v)
-/-- `AddFloat32(v)` = `addUint32(math.Float32bits(v))`; argument is the bit pattern -/
-def addFloat32 (P : Params) (h : Hash) (bits : UInt32) : Hash := addUint32 P h bits
-/-- `AddFloat64(v)` = `addUint64(math.Float64bits(v))`; argument is the bit pattern -/
-def addFloat64 (P : Params) (h : Hash) (bits : UInt64) : Hash := addUint64 P h bits
+/-- `if v == 0 { v = 0 }` on a float32 bit pattern: `v == 0` holds exactly for `+0` and `−0`
+(all bits but the sign clear), and the constant `0` is `+0` -/
+def normZero32 (bits : UInt32) : UInt32 := if (bits &&& 0x7FFFFFFF) == 0 then 0 else bits
+/-- the same for float64 -/
+def normZero64 (bits : UInt64) : UInt64 := if (bits &&& 0x7FFFFFFFFFFFFFFF) == 0 then 0 else bits
+/-- `AddFloat32(v)`: zero normalised (`+0`/`−0` are `==`, they must hash alike), then
+`addUint32(math.Float32bits(v))`; argument is the bit pattern -/
+def addFloat32 (P : Params) (h : Hash) (bits : UInt32) : Hash := addUint32 P h (normZero32 bits)
+/-- `AddFloat64(v)`: zero normalised, then `addUint64(math.Float64bits(v))` -/
+def addFloat64 (P : Params) (h : Hash) (bits : UInt64) : Hash := addUint64 P h (normZero64 bits)
 /-- `AddBool` -/
 def addBool (P : Params) (h : Hash) (v : Bool) : Hash := step P h (if v then 1 else 0)
 /-- `AddBytes`: `hV ^= hash(b); hV *= multiplier` per byte (no mask needed, a byte is < 256) -/
